@@ -71,8 +71,31 @@ FIRSTCHAR = {
 }
 
 
+# validated-format default slots: whole-value templates that the kind's own validator ACCEPTS (or must reject) with one hostile character;
+# {tok} is the slot's traceable token (a date / the 31-digit head of a uuid / a number)
+_DT = {"dt-single-quote": "{tok}'10:20:30", "dt-double-quote": '{tok}"10:20:30', "dt-backslash": "{tok}\\10:20:30", "dt-newline": "{tok}\n10:20:30",
+       "dt-nul": "{tok}\x0010:20:30", "dt-brace": "{tok}{10:20:30", "dt-hash": "{tok}#10:20:30", "dt-trailing-quote": "{tok}T10:20:30'"}
+KIND_PAYLOADS = {
+    "date": _DT, "datetime": _DT,
+    "uuid": {"uuid-braces": "{{tok}d}", "uuid-urn": "urn:uuid:{tok}d", "uuid-newline": "\n{tok}", "uuid-trailing-newline": "{tok}\n", "uuid-linesep": "\u2028{tok}",
+             "uuid-tab": "\t{tok}", "uuid-plus": "+{tok}", "uuid-single-quote": "'{tok}", "uuid-double-quote": '"{tok}', "uuid-backslash": "\\{tok}"},
+    "int": {"num-space-newline": " {tok}\n", "num-plus": "+{tok}", "num-exponent": "{tok}e0", "num-dot": "{tok}.0", "num-quote": "{tok}'", "num-code": "{tok};zvq"},
+    "float": {"num-space-newline": " {tok}.5\n", "num-plus": "+{tok}.5", "num-exponent": "{tok}.5e0", "num-quote": "{tok}.5'", "num-code": "{tok}.5;zvq"},
+}
+
+
+def _validator_reading(kind, text):
+    """What the generator's own validator makes of a numeric default (parser/properties/int.py, float.py)."""
+    v = float(text)
+    if kind == "int" and v == int(v):
+        return int(v)
+    return v
+
+
 def _ps(payload):
     """(prefix, suffix) of a payload spec."""
+    if isinstance(payload, dict):
+        return ("", payload["tpl"])
     return ("", payload) if isinstance(payload, str) else (payload[0], payload[1])
 
 _REM = re.compile(r"(?i)([_-]?é中)?[_-]?x?zvq")
@@ -273,6 +296,7 @@ def _shape(src: str):
         warnings.simplefilter("ignore")
         tree = ast.parse(src)
     consts = []
+    nums = [n.value for n in ast.walk(tree) if isinstance(n, ast.Constant) and isinstance(n.value, (int, float)) and not isinstance(n.value, bool)]
     doc_nodes = set()
     for n in ast.walk(tree):
         if isinstance(n, (ast.Module, ast.ClassDef, ast.FunctionDef, ast.AsyncFunctionDef)) and n.body and isinstance(n.body[0], ast.Expr) \
@@ -317,7 +341,7 @@ def _shape(src: str):
                 st.targets[0].id = "MEMBER"
             rest = [st for st in n.body if st not in mem]
             n.body = sorted(mem, key=lambda x: ast.dump(x)) + rest
-    return ast.dump(tree), consts
+    return ast.dump(tree), consts, nums
 
 
 def _enum_members_plain(src: str):
@@ -377,7 +401,7 @@ def _benign(meta, cfg_key):
             if p.endswith(".py"):
                 info[p] = _shape(s)
             elif p.endswith(".toml"):
-                info[p] = (_toml_shape(s), [])
+                info[p] = (_toml_shape(s), [], [])
         _BENIGN[key] = (C, files, info, diag)
     return _BENIGN[key]
 
@@ -387,7 +411,14 @@ def check_case(case):
     meta, cfg_key = case["meta"], json.dumps(case["cfg"], sort_keys=True)
     C0, files0, info0, diag0 = _benign(meta, cfg_key)
     sfx = case["slots"]
-    C = probe.Canaries(lambda label, c: _ps(sfx[label])[0] + c + _ps(sfx[label])[1] if label in sfx else c)
+    def wrap_kind(label, tok, kind):
+        base = probe.KIND_BASE[kind].replace("{tok}", tok)
+        if label not in sfx:
+            return base
+        if isinstance(sfx[label], dict):
+            return sfx[label]["tpl"].replace("{tok}", tok)
+        return _ps(sfx[label])[0] + base + _ps(sfx[label])[1]
+    C = probe.Canaries(lambda label, c: _ps(sfx[label])[0] + c + _ps(sfx[label])[1] if label in sfx else c, wrap_kind)
     files, diag, exc = _render(probe.build("A", C), meta, case["cfg"])
     res = {"fails": [], "absent": [], "diag": len(diag), "diag0": len(diag0), "exc": exc, "texts": {l: C.text[l] for l in sfx}}
     if exc is not None:
@@ -420,7 +451,7 @@ def check_case(case):
                 with warnings.catch_warnings():
                     warnings.simplefilter("ignore")
                     compile(src, p, "exec")
-                sh, consts = _shape(src)
+                sh, consts, nums = _shape(src)
             except (SyntaxError, ValueError) as e:
                 fail("syntax", p, e)
                 continue
@@ -442,14 +473,32 @@ def check_case(case):
                 if ran:
                     fail("import-exec", p, ran)
             if np_ in info0:
-                sh0, consts0 = info0[np_]
+                sh0, consts0, nums0 = info0[np_]
                 if sh != sh0:
                     if not diagnosed:
                         fail("shape", p, "AST shape differs from the canary-only rendering")
                     continue
                 # run-time-meaningful text: character for character
                 for label in sfx:
-                    if label in probe.RUNTIME_SLOTS:
+                    knd = C.kind.get(label)
+                    if knd in ("date", "datetime", "uuid"):
+                        # the literal handed to isoparse() / UUID() must be the document text itself: then it evaluates to the validator's reading
+                        tok = C.by_label[label]
+                        got = sorted(c for c in consts if tok in c)
+                        exp = [C.text[label]] * len([c for c in consts0 if tok in c])
+                        if got != exp:
+                            fail("verbatim", p, f"slot {label}: literals {got!r} != document text {C.text[label]!r} x{len(exp)}")
+                    elif knd in ("int", "float"):
+                        tok = C.by_label[label]
+                        got = [v for v in nums if tok in repr(v)]
+                        n0 = len([v for v in nums0 if tok in repr(v)])
+                        try:
+                            want = _validator_reading(knd, C.text[label])
+                        except ValueError:
+                            want = None
+                        if want is not None and (len(got) != n0 or any(v != want or type(v) is not type(want) for v in got)):
+                            fail("verbatim", p, f"slot {label}: numbers {got!r} != validator's reading {want!r} x{n0}")
+                    elif label in probe.RUNTIME_SLOTS:
                         can = C.by_label[label]
                         can0 = C0.by_label[label]
                         exp = sorted(c.replace(can0, C.core[label]) for c in consts0 if can0 in c)
@@ -513,8 +562,14 @@ def build_cases(run, tier, table):
     reps = set()
     for g in groups.values():
         reps.update(rng.sample(sorted(g), 1) if quick else g)
+    kinds = table.get("kinds", {})
     for label in labels:
-        if label not in emitted:
+        k_ = kinds.get(label)
+        if label in emitted and k_ in KIND_PAYLOADS:
+            for name, tpl in KIND_PAYLOADS[k_].items():
+                cases.append({"slots": {label: {"tpl": tpl}}, "classes": {label: name}, "meta": "none", "cfg": {}, "kind": "format-default"})
+    for label in labels:
+        if label not in emitted or kinds.get(label) in KIND_PAYLOADS:
             continue
         for (meta, cfg) in cfgs_for(label):
             full = label in reps
@@ -541,7 +596,7 @@ def build_cases(run, tier, table):
         for cfg in ({}, {"literal_enums": True, "docstrings_on_attributes": True}):
             cases.append({"slots": {l: PAYLOADS[k] for l in absent}, "classes": {"<all absent slots>": k}, "meta": "poetry", "cfg": cfg, "kind": "absent-packed"})
     ncombo = 40 if quick else 500
-    em = sorted(emitted)
+    em = sorted(l for l in emitted if kinds.get(l) not in KIND_PAYLOADS)
     for _ in range(ncombo):
         k = rng.randint(2, 4)
         ls = rng.sample(em, k)
